@@ -34,10 +34,11 @@ L3_Params == { P("p0", 5), P("p1", 6), P("p2", 10) }
 L3_Stale  == { P("p3", 11) }        \* an older chain whose iteration count is over the hard limit
 NoParent  == <<>>
 
-\* 24 more hash orders (integer ids): affine permutations with different multipliers and offsets
-O3_HT     == [ k \in 1..24 |-> HashFn(Q3_Names, ((k * 37) % 209) + 1, (k * k * 13) % 211) ] @@ <<>>
-O3_Params == { P(k, 0) : k \in 1..24 }
+\* 12 more hash orders (integer ids): affine permutations with different multipliers and offsets
+O3_HT     == [ k \in 1..12 |-> HashFn(Q3_Names, ((k * 37) % 209) + 1, (k * k * 13) % 211) ] @@ <<>>
+O3_Params == { P(k, 0) : k \in 1..12 }
 T3_QTypes == {"A", "DS"}
+T3_Params == { P("p1", 1) }
 
 S3_QTypes == {"A", "DS", "CNAME"}
 =============================================================================
